@@ -1224,6 +1224,8 @@ impl World {
         }
         let before = obs_full(m);
         let s = m.stage().unwrap();
+        self.emit("export", r, "ok", json!({"stage": s}));
+        let m = self.reps[r].m.as_mut().unwrap();
         let _ = m.unstage();
         self.emit("unstage", r, "ok", json!({}));
         let m = self.reps[r].m.as_mut().unwrap();
@@ -1238,8 +1240,7 @@ impl World {
             fails.push(("C15", format!("replaying an exported stage failed: {}", msg_prefix(&e.to_string()))));
         }
         let after = obs_full(m);
-        let bodies = s.as_ref().and_then(|v| v.get("o")).cloned().unwrap_or(json!({}));
-        self.emit("adopt", r, "ok", json!({"bodies": bodies}));
+        self.emit("replay", r, "ok", json!({"stage": s}));
         if after != before {
             fails.push(("C15", format!("export, discard and replay does not restore the staged state: {}", first_diff(&before, &after))));
         }
